@@ -205,7 +205,7 @@ func (t *LiqTracker) observe(w *World, byKeeper bool, isBlock bool) {
 	for id, li := range t.locked {
 		if !present[id] {
 			t.settled = append(t.settled, li)
-			if li.Type == "vault" && !w.esmOn(li.App) {
+			if li.Type == "vault" {
 				addTo(t.mintedSkew, prodKey{li.App, li.Ext}, li.TotalOut.Sub(li.Principal))
 			}
 			delete(t.locked, id)
@@ -293,6 +293,7 @@ func init() {
 			addTo(lv.principal, k, li.Principal)
 			lv.any = true
 		}
+		v1Locked(w, &lv)
 		return lv
 	}
 }
